@@ -72,6 +72,10 @@ def run(ctx):
             "%s %s" % ((hs[0][0].qualname, hs[0][2]) if hs else ("", "")), line=hs[0][1].lineno if hs else None,
             example="the same call repeated in one process after a call with other arguments / a failed call")
 
+    # the constant every record starts with is set per network by set_magic_start_bytes (shared with C17)
+    from . import c17 as _c17
+    _c17.check_magic_table(ctx, "C19.5")
+
     # ---- OWN: over the function and every package function it (transitively) calls -- the store may live in a helper,
     # a class or another module
     nodes, seen_q = [fi.node], {fi.qualname}
